@@ -108,6 +108,14 @@ fn reply_entries(reply: &str) -> Vec<(Value, Result<String, (i32, String, Option
 	out
 }
 
+/// (id, payload) of a single response object (empty for anything else)
+fn single_entry(text: &str) -> Vec<(Value, Result<String, (i32, String, Option<String>)>)> {
+	match serde_json::from_str::<Value>(text) {
+		Ok(v @ Value::Object(_)) => reply_entries(&Value::Array(vec![v]).to_string()),
+		_ => vec![],
+	}
+}
+
 /// canonical JSON text (serde_json::Value round trip) so that whitespace in raw results is ignored
 fn canon(s: &str) -> String {
 	serde_json::from_str::<Value>(s).map(|v| v.to_string()).unwrap_or_else(|_| s.to_string())
@@ -218,6 +226,7 @@ fn run_ws_case(out: &mut Out, lines: &[String]) {
 	let mut pending: BTreeMap<usize, Pending> = BTreeMap::new();
 	let mut last_batch_op: Vec<(usize, Option<String>)> = vec![];
 	let mut n_ops = 0usize;
+	let mut inflight = InFlight::default();
 	let mut recs: Vec<(String, String, Result<(), String>, bool)> = vec![];
 	run_case(lines, |line, obs| {
 		let w: Vec<&str> = line.split(' ').collect();
@@ -232,6 +241,19 @@ fn run_ws_case(out: &mut Out, lines: &[String]) {
 					last_batch_op.push((n_ops, Some(w[2].to_string())));
 				}
 				n_ops += 1;
+			}
+			// (i) wire ids of everything in flight are pairwise distinct
+			if w[1] == "deliver" || w[1] == "deliverx" {
+				inflight.on_deliver(&String::from_utf8(unhex(w[2])).unwrap_or_default());
+			}
+			for wtxt in &obs.wires {
+				if let Err(e) = inflight.on_wire(wtxt) {
+					out.count("oracle.shared-wire-id");
+					verdict = Err(e);
+				}
+			}
+			if obs.fatal.is_some() {
+				inflight.clear();
 			}
 			// a batch request appearing on the wire tells us its id range
 			for wtxt in &obs.wires {
@@ -259,6 +281,18 @@ fn run_ws_case(out: &mut Out, lines: &[String]) {
 				for (op, comp) in &obs.comps {
 					if let Some(p) = pending.remove(op) {
 						nontrivial = true;
+						// (ii) a batch result may only be built from the reply the server made for that batch
+						if let (Some(made_for), Comp::Batch { .. }) = (reply_tag(&w), comp) {
+							out.count("oracle.reply-tag-checked");
+							if made_for != *op && verdict.is_ok() {
+								verdict = Err(format!(
+									"batch operation {op} (ids {}..{}) returned Ok built from a reply the server made for operation {made_for}: {}",
+									p.start,
+									p.start + p.n as u64,
+									comp.render()
+								));
+							}
+						}
 						out.count(match (comp, p.ty.is_some()) {
 							(Comp::Batch { .. }, false) => "ws.batch.ok",
 							(_, false) => "ws.batch.err",
@@ -310,6 +344,7 @@ fn run_http_case(out: &mut Out, lines: &[String]) {
 		.build("http://127.0.0.1:9")
 		.expect("http client builds without connecting");
 	let rt = tokio::runtime::Builder::new_current_thread().enable_time().build().unwrap();
+	let mut inflight = InFlight::default();
 	out.line(lines[0].clone(), "case".into(), Ok(()), false);
 	for line in &lines[1..] {
 		let mut w: Vec<&str> = line.split(' ').collect();
@@ -353,13 +388,18 @@ fn run_http_case(out: &mut Out, lines: &[String]) {
 					r.map(|r| batch_comp(&r))
 				});
 				let sent = script.sent.lock().unwrap().last().cloned().unwrap_or_default();
+				let shared = inflight.on_wire(&sent);
+				// (the HTTP histories are sequential: once the call has returned nothing of it is in flight)
+				inflight.clear();
 				let ids = wire_batch_ids(&sent).unwrap_or_default();
 				let comp = match res {
 					Ok(c) => c,
 					Err(e) => classify_err(&e),
 				};
 				let mut verdict = Ok(());
-				if ids.len() != n || !ids.windows(2).all(|p| p[1] == p[0] + 1) {
+				if let Err(e) = shared {
+					verdict = Err(e);
+				} else if ids.len() != n || !ids.windows(2).all(|p| p[1] == p[0] + 1) {
 					verdict = Err(format!("http batch ids on the wire: {ids:?} for n={n}"));
 				} else if let Err(e) = batch_oracle(ids[0], n, &reply, &comp, ty.as_deref()) {
 					verdict = Err(e);
@@ -699,8 +739,9 @@ fn gen_ws_case(rng: &mut Rng, out: &mut Out, caseno: u64, perm_case: Option<(usi
 		lines.push("cl gate shut".into());
 	}
 	let mut next_id = 0u64;
-	// (kind, start, n, type): kind 0 = call, 1 = batch, 2 = batch answered with the given permutation
-	let mut open: Vec<(u8, u64, usize, Option<(&'static str, u64)>)> = vec![];
+	let mut next_op = 0usize;
+	// (kind, start, n, type, op): kind 0 = call, 1 = batch, 2 = batch answered with the given permutation, 3 = subscribe
+	let mut open: Vec<(u8, u64, usize, Option<(&'static str, u64)>, usize)> = vec![];
 	let n_front = if perm_case.is_some() { rng.range(1, 3) } else { rng.range(1, 5) };
 	let mut perm_slot = perm_case.as_ref().map(|_| rng.below(n_front) as usize);
 	for i in 0..n_front as usize {
@@ -712,12 +753,15 @@ fn gen_ws_case(rng: &mut Rng, out: &mut Out, caseno: u64, perm_case: Option<(usi
 				Some((t, _)) => lines.push(format!("cl tbatch {t} {n}")),
 				None => lines.push(format!("cl batch {n}")),
 			}
-			open.push((if force_batch { 2 } else { 1 }, next_id, n, ty));
-			next_id += 1;
+			open.push((if force_batch { 2 } else { 1 }, next_id, n, ty, next_op));
+			// the whole range `next_id .. next_id + n` is reserved for the entries
+			next_id += n as u64;
+			next_op += 1;
 		} else {
 			lines.push("cl call".into());
-			open.push((0, next_id, 1, None));
+			open.push((0, next_id, 1, None, next_op));
 			next_id += 1;
+			next_op += 1;
 		}
 		// the rest of the API in between: notifications, subscriptions, handlers, is_connected
 		if perm_case.is_none() && rng.chance(1, 3) {
@@ -730,12 +774,14 @@ fn gen_ws_case(rng: &mut Rng, out: &mut Out, caseno: u64, perm_case: Option<(usi
 				1 => {
 					out.count("api.subscribe");
 					lines.push("cl subscribe".into());
-					open.push((3, next_id, 1, None));
+					open.push((3, next_id, 1, None, next_op));
 					next_id += 2;
+					next_op += 1;
 				}
 				2 => {
 					out.count("api.subscribe_to_method");
 					lines.push(format!("cl regnotif {}", hexs(*rng.pick(&["m", "other", "sub"]))));
+					next_op += 1;
 				}
 				3 => lines.push("cl connected".into()),
 				_ => {
@@ -744,8 +790,9 @@ fn gen_ws_case(rng: &mut Rng, out: &mut Out, caseno: u64, perm_case: Option<(usi
 					let n = rng.range(1, 3) as usize;
 					for _ in 0..2 {
 						lines.push(format!("cl batch {n}"));
-						open.push((1, next_id, n, None));
-						next_id += 1;
+						open.push((1, next_id, n, None, next_op));
+						next_id += n as u64;
+						next_op += 1;
 					}
 				}
 			}
@@ -761,7 +808,7 @@ fn gen_ws_case(rng: &mut Rng, out: &mut Out, caseno: u64, perm_case: Option<(usi
 	// answer in random order; sometimes leave one unanswered, sometimes answer twice
 	while !open.is_empty() {
 		let i = rng.below(open.len() as u64) as usize;
-		let (kind, start, n, ty) = open.remove(i);
+		let (kind, start, n, ty, op) = open.remove(i);
 		if rng.chance(1, 12) {
 			continue; // omitted
 		}
@@ -787,10 +834,29 @@ fn gen_ws_case(rng: &mut Rng, out: &mut Out, caseno: u64, perm_case: Option<(usi
 			}
 			_ => gen_reply(rng, out, start, n, str_ids, None, ty),
 		};
-		lines.push(deliver_line(rng, &text, |k| out.count(k)));
+		// the mock server says whom it is answering (`for=<op>`) — unless this reply deliberately carries an id that
+		// belongs to another operation of the case (then the ids, not the intention, address it)
+		let width = if kind == 3 { 2 } else { n as u64 };
+		let strays = reply_entries(&text)
+			.iter()
+			.chain(single_entry(&text).iter())
+			.filter_map(|(id, _)| id_number(id))
+			.any(|i| !(start..start + width).contains(&i) && i < next_id);
+		let tag = if strays { String::new() } else { format!(" for={op}") };
+		lines.push(format!("{}{tag}", deliver_line(rng, &text, |k| out.count(k))));
 		if rng.chance(1, 15) {
 			out.count("second.same-reply-again");
-			lines.push(format!("cl deliver {}", hexs(&text))); // duplicate answer
+			lines.push(format!("cl deliver {}{tag}", hexs(&text))); // duplicate answer
+		}
+		if kind == 1 && !open.is_empty() && rng.chance(1, 8) {
+			// the same reply with its first and last entry cut off, while other batches are pending: it must never
+			// complete one of them
+			if let Ok(Value::Array(a)) = serde_json::from_str::<Value>(&text) {
+				if a.len() >= 3 {
+					out.count("reply.inner-part-again");
+					lines.push(format!("cl deliver {}{tag}", hexs(&Value::Array(a[1..a.len() - 1].to_vec()).to_string())));
+				}
+			}
 		}
 	}
 	lines
@@ -837,13 +903,16 @@ fn gen_http_case(rng: &mut Rng, out: &mut Out, caseno: u64, perm_case: Option<(u
 		}
 	}
 	for _ in 0..k {
+		let used: u64;
 		match &perm_case {
 			Some((n, p)) => {
 				let r = gen_reply(rng, out, next_id, *n, str_ids, Some(p), None);
 				lines.push(format!("hc batch {n} {}", hexs(&r)));
+				used = *n as u64;
 			}
 			None => {
 				let n = rng.range(1, 5) as usize;
+				used = n as u64;
 				let ty = pick_type(rng, false);
 				if rng.chance(1, 12) {
 					let r = gen_near_reply(rng, out, next_id, n, str_ids);
@@ -861,7 +930,7 @@ fn gen_http_case(rng: &mut Rng, out: &mut Out, caseno: u64, perm_case: Option<(u
 					if rng.chance(1, 8) {
 						// the second time: the same batch, the same reply (its ids are those of the first batch)
 						out.count("second.identical-batch");
-						next_id += 1;
+						next_id += n as u64;
 						match ty {
 							Some((t, _)) => lines.push(format!("hc tbatch {t} {n} {}", hexs(&r))),
 							None => lines.push(format!("hc batch {n} {}", hexs(&r))),
@@ -873,7 +942,7 @@ fn gen_http_case(rng: &mut Rng, out: &mut Out, caseno: u64, perm_case: Option<(u
 				}
 			}
 		}
-		next_id += 1;
+		next_id += used;
 	}
 	lines
 }
